@@ -220,6 +220,10 @@ def _r054(ctx, u):
     fo = u.function("rtosc_match_options")
     pso = u.params(fo)
     msgp = pso[1]["id"]
+    if not any(x.get("kind") == "GotoStmt" for x in A.walk(u.body(fo))):
+        return      # alternatives tried by a loop instead of goto: no retry jump to guard; what the retry must achieve (the
+                    # message cursor back at its entry value for the next alternative) is decided by the path table R05.6,
+                    # whose probes contain alternatives that share a prefix with the address (`x{on,off}y` against `xoffy`)
     # the variable that preserves *msg at entry
     pres = [x for x in A.walk(u.body(fo)) if x.get("kind") == "VarDecl" and A.kids(x) and
             A.strip_casts(A.kids(x)[-1]).get("kind") == "UnaryOperator" and A.strip_casts(A.kids(x)[-1]).get("opcode") == "*" and A.ref_id(A.kids(A.strip_casts(A.kids(x)[-1]))[0]) == msgp]
@@ -247,6 +251,10 @@ def _r054(ctx, u):
         if x.get("kind") == "LabelStmt":
             lab_by_id[x.get("declId")] = x.get("name")
     back = [(i, g) for i, g in gotos if lab_by_id.get(g.get("targetLabelDeclId")) in labels and labels[lab_by_id[g.get("targetLabelDeclId")]] < i]
+    if not gotos:
+        return      # alternatives tried by a loop instead of goto: no retry jump to guard; what the retry must achieve (the
+                    # message cursor back at its entry value for the next alternative) is decided by the path table R05.6,
+                    # whose probes contain alternatives that share a prefix with the address (`x{on,off}y` against `xoffy`)
     ctx.require(len(back) >= 1, "rtosc_match_options: no backward jump (retry) found")
 
     def is_restore(x):
